@@ -1,8 +1,11 @@
 ------------------------------ MODULE Cartesian ------------------------------
 (***************************************************************************)
 (* Cartesian diagrams compute the function they draw (C19).                *)
-(* State of the evaluation machine: a tuple of integers (one per open      *)
-(* wire).  ApplyBox(f, off) feeds the wires at the box's offset through f  *)
+(* State of the evaluation machine: a tuple of values (one per open wire). *)
+(* Values are integers, plus one opaque value NONE that is not a number    *)
+(* (Python's None: a lookup that misses): it can be copied, swapped,       *)
+(* discarded and tested, arithmetic on it is an error (the call raises),   *)
+(* and on a wire it is a value like any other - never "no value".  ApplyBox(f, off) feeds the wires at the box's offset through f  *)
 (* and splices its outputs back in place.  The menu of functions is        *)
 (* defined here and, identically, in the Python adapter.                   *)
 (***************************************************************************)
@@ -12,10 +15,15 @@ W == <<1, 0>>                                   \* the single wire type of PRO
 Wn(n) == [k \in 1..n |-> W]
 \* id |-> [n inputs, m outputs]
 Arity == << <<0, 1>>, <<1, 1>>, <<2, 1>>, <<1, 2>>, <<1, 2>>, <<2, 2>>, <<1, 0>>, <<2, 1>>,
-            <<3, 3>>, <<0, 0>>, <<0, 2>>, <<2, 3>> >>
+            <<3, 3>>, <<0, 0>>, <<0, 2>>, <<2, 3>>, <<0, 1>>, <<1, 1>>, <<1, 2>> >>
+NONE == 0 - 1000                                \* code of the opaque value
+ERR  == 0 - 2000                                \* the evaluation raised
+Arithmetic == {2, 3, 4, 8, 9, 12}
+Opaque(a) == \E k \in 1..Len(a) : a[k] = NONE
 Min3(a, b, c) == IF a <= b /\ a <= c THEN a ELSE IF b <= c THEN b ELSE c
 Max3(a, b, c) == IF a >= b /\ a >= c THEN a ELSE IF b >= c THEN b ELSE c
 Fun(id, a) ==
+  IF id \in Arithmetic /\ Opaque(a) THEN <<ERR>> ELSE
   CASE id = 1  -> <<7>>                       \* const
     [] id = 2  -> <<0 - a[1]>>                \* neg
     [] id = 3  -> <<a[1] + a[2]>>             \* add
@@ -29,9 +37,14 @@ Fun(id, a) ==
     [] id = 10 -> <<>>                        \* unit (0 -> 0)
     [] id = 11 -> <<1, 2>>                    \* two constants
     [] id = 12 -> <<a[1], a[2], 2 * a[1] + a[2]>>
+    [] id = 13 -> <<NONE>>                    \* a lookup that misses
+    [] id = 14 -> <<IF a[1] = NONE THEN 1 ELSE 0>>
+    [] id = 15 -> <<a[1], NONE>>
 FBox(id) == [id |-> id, kind |-> 0, dom |-> Wn(Arity[id][1]), cod |-> Wn(Arity[id][2]), dg |-> 0]
 
 ApplyBox(vals, id, off) ==
+  LET out == Fun(id, Slice(vals, off, off + Arity[id][1])) IN
+  IF vals = <<ERR>> \/ out = <<ERR>> THEN <<ERR>> ELSE
   Slice(vals, 0, off) \o Fun(id, Slice(vals, off, off + Arity[id][1]))
                       \o Slice(vals, off + Arity[id][1], Len(vals))
 RECURSIVE EvalFrom(_, _, _)
@@ -58,13 +71,14 @@ Build == /\ Len(d.boxes) < MaxBoxes
 Spec == Init /\ [][Build]_d
 
 Tuples(n) == [1..n -> Inputs]
-InvArity == \A xs \in Tuples(Len(d.dom)) : Len(EvalD(d, xs)) = Len(d.cod)
+InvArity == \A xs \in Tuples(Len(d.dom)) : EvalD(d, xs) = <<ERR>> \/ Len(EvalD(d, xs)) = Len(d.cod)
 \* naturality of swap, copy and discard with respect to the last box f : n -> m
 \* (the cartesian axioms, as equalities of tuples)
 InvNatural ==
   \A id \in 1..Len(Arity) : \A xs \in Tuples(Arity[id][1] + 1) :
     LET n == Arity[id][1]  a == Slice(xs, 0, n)  z == xs[n + 1] IN
-    /\ SwapF(Arity[id][2], Fun(id, a) \o <<z>>) = <<z>> \o Fun(id, a)
-    /\ CopyF(Fun(id, a)) = Fun(id, a) \o Fun(id, a)
-    /\ DiscardF(Fun(id, a)) = <<>>
+    (Fun(id, a) # <<ERR>>) =>
+       /\ SwapF(Arity[id][2], Fun(id, a) \o <<z>>) = <<z>> \o Fun(id, a)
+       /\ CopyF(Fun(id, a)) = Fun(id, a) \o Fun(id, a)
+       /\ DiscardF(Fun(id, a)) = <<>>
 =============================================================================
